@@ -194,6 +194,7 @@ HARNESS = r'''/* generated harness: hook/action protocol of the real code vs the
 #define SP_K %(K)d
 #define SP_MAXRES %(maxres)d
 #define SP_EVENTS 1
+%(lazy)s
 #define EV_VETO_MAX %(vetomax)d
 #define EV_MAX %(evmax)d
 #include "verif.h"
@@ -215,7 +216,7 @@ static void harness(void) {
 '''
 
 
-def harness_text(expr_text, wrappers, N, K, doc, action=None, unwind=True, maxres=3, vetomax=2, evmax=24, action_unwind=True, reach=()):
+def harness_text(expr_text, wrappers, N, K, doc, action=None, unwind=True, maxres=3, vetomax=2, evmax=24, action_unwind=True, reach=(), lazy=False):
     """wrappers: list of (wrapper function name, actions_enabled 0/1, rewind required 0/1)"""
     g = EvGen(doc, action=action, unwind=unwind, action_unwind=action_unwind)
     e = parse(expr_text)
@@ -226,4 +227,4 @@ def harness_text(expr_text, wrappers, N, K, doc, action=None, unwind=True, maxre
                      '  ev_reset_real(); %s(sp_buf, sp_n, sp_start, o); check_variant("", o, e, %d); ev_compare();\n#endif' % (m, fn, a, w, req))
     rl = ['  REACH(%s, "%s");' % (c, m) for (c, m) in reach]
     rl.append('  REACH(ev_nspec >= 3, "at least one complete frame in the protocol");')
-    return HARNESS % {'N': N, 'K': K, 'maxres': maxres, 'vetomax': vetomax, 'evmax': evmax, 'spec': g.text(), 'calls': '\n'.join(calls), 'reach': '\n'.join(rl)}
+    return HARNESS % {'N': N, 'K': K, 'maxres': maxres, 'vetomax': vetomax, 'evmax': evmax, 'lazy': '#define SP_LAZY 1' if lazy else '', 'spec': g.text(), 'calls': '\n'.join(calls), 'reach': '\n'.join(rl)}
